@@ -1,4 +1,5 @@
 import LsModel.Txn
+import LsLemmas.TxnBase
 import LsLemmas.Lww
 import LsLemmas.Bytes
 /-
@@ -8,22 +9,9 @@ import LsLemmas.Bytes
 namespace Ls.Txn
 open Ls Ls.Lmdb Ls.Strategy
 
-theorem findDbi_name {dbis : List Dbi} {n : Bytes} {d : Dbi} (h : findDbi dbis n = some d) :
-    d.name = n := by
-  have := List.find?_some h
-  simpa using this
-
-theorem findDbi_mem {dbis : List Dbi} {n : Bytes} {d : Dbi} (h : findDbi dbis n = some d) :
-    d ∈ dbis := List.mem_of_find?_eq_some h
-
 theorem findDbi_none {dbis : List Dbi} {n : Bytes} :
     findDbi dbis n = none ↔ ∀ d ∈ dbis, d.name ≠ n := by
   simp [findDbi]
-
-theorem findDbi_cons (x : Dbi) (rest : List Dbi) (n : Bytes) :
-    findDbi (x :: rest) n = if x.name = n then some x else findDbi rest n := by
-  simp only [findDbi, List.find?_cons]
-  by_cases h : x.name = n <;> simp [h]
 
 /-- `setKvs` replaces the content of the named DBI and nothing else -/
 theorem findDbi_setKvs (dbis : List Dbi) (n : Bytes) (kvs : KVs) (n' : Bytes) :
@@ -204,21 +192,6 @@ theorem sortedNames_openCreate {w : W} (n : Bytes) (fl : Nat) (h : SortedNames w
     rw [openCreate_of_none hf]
     exact sortedNames_insertDbi _ h (by simpa using hf)
 
-theorem runOn_ok {w w' : W} {n : Bytes} {f : S → Except Err S} (h : runOn w n f = .ok w') :
-    ∃ d s, findDbi w.dbis n = some d ∧ f { db := d.kvs, dirty := w.dirty } = .ok s ∧
-      w' = { dbis := setKvs w.dbis n s.db, dirty := s.dirty } := by
-  unfold runOn at h
-  cases hd : findDbi w.dbis n with
-  | none => simp [hd] at h
-  | some d =>
-    simp only [hd, bind, Except.bind] at h
-    cases hs : f { db := d.kvs, dirty := w.dirty } with
-    | error err => rw [hs] at h; cases h
-    | ok s =>
-      rw [hs] at h
-      injection h with h
-      exact ⟨d, s, rfl, hs, h.symm⟩
-
 theorem sortedNames_runOn {w w' : W} {n : Bytes} {f : S → Except Err S} (h : runOn w n f = .ok w')
     (hs : SortedNames w.dbis) : SortedNames w'.dbis := by
   obtain ⟨d, s, _, _, rfl⟩ := runOn_ok h
@@ -246,24 +219,6 @@ theorem except_bind_ok {ε α β} {x : Except ε α} {f : α → Except ε β} {
   cases x with
   | error e => cases h
   | ok a => exact ⟨a, rfl, h⟩
-
-/-- the loop body of `mainToShadow` -/
-def m2sStep (c : Cfg) (txnID now cutoff : Nat) (w : W) (name : Bytes) : Except Err W := do
-    if isPrivate name then pure w else
-    let msg ← readDBI c w name name true
-    let some d := findDbi w.dbis name | throw .dbiMissing
-    let dup := isDupSort d.flags
-    if dup ∧ ¬ c.hack then throw .dupsortNoHack
-    let targetFlags := d.flags &&& Gen.allowedShadowDBIFlagsMask
-    let entries ← if c.hack ∧ dup then
-        (match DupSort.encodeAll msg.entries with
-         | .ok r => pure r
-         | .error _ => throw Err.dupHack)
-      else pure msg.entries
-    let w := openCreate w (shadowName name) targetFlags
-    let some sd := findDbi w.dbis (shadowName name) | throw .dbiMissing
-    let mc : Merge.Cfg := { fv := Gen.currentFormatVersion, defTs := now, txn := txnID, cutoff := cutoff, pad := false }
-    runOn w (shadowName name) fun s => mapStratErr (iterUpdate (isIntKey sd.flags) (nativeIter mc) s entries)
 
 theorem mainToShadow_eq_fold (c : Cfg) (w : W) (txnID now cutoff : Nat) :
     mainToShadow c w txnID now cutoff = (dbiNames w).foldlM (m2sStep c txnID now cutoff) w := rfl
@@ -296,22 +251,6 @@ theorem mainToShadow_sorted {c : Cfg} {txnID now cutoff : Nat} {w w' : W}
     SortedNames w'.dbis :=
   foldlM_invariant (fun w => SortedNames w.dbis) _ (fun _ _ _ hb hf => m2sStep_sorted hb hf) _ _ _ hs h
 
-
-/-- the loop body of `shadowToMain` -/
-def s2mStep (c : Cfg) (w : W) (name : Bytes) : Except Err W := do
-    if isPrivate name then pure w else
-    let some d := findDbi w.dbis name | throw .dbiMissing
-    let dup := isDupSort d.flags
-    if dup ∧ ¬ c.hack then throw .dupsortNoHack
-    let msg ← readDBI c w (shadowName name) name false
-    let entries ← if dup then
-        (match DupSort.decodeAll msg.entries with
-         | .ok r => pure r
-         | .error _ => throw Err.dupHack)
-      else pure msg.entries
-    runOn w name fun s =>
-      if dup then mapStratErr (emptyPut (isIntKey d.flags) true plainIter s entries)
-      else mapStratErr (iterUpdate (isIntKey d.flags) plainIter s entries)
 
 theorem shadowToMain_eq_fold (c : Cfg) (w : W) :
     shadowToMain c w = (dbiNames w).foldlM (s2mStep c) w := rfl
